@@ -348,6 +348,18 @@ contains
        end block
 #endif
 #ifndef SIMC
+    case ("vec_inout_alloc")
+       allocate(iv(a)); do i = 1, a; iv(i) = i; end do
+       call sim_phase(1); call vec_inout_alloc(iv); call sim_phase(0)
+       sm = 0; if (size(iv) > 0) sm = sum(iv)
+       call res_arr(size(iv), sm); deallocate(iv)
+#endif
+#ifndef SIMC
+    case ("str_ptr_out")
+       allocate(character(len=a) :: buf); buf = repeat("#", a)
+       call sim_phase(1); call str_ptr_out(buf, int(b, C_INT)); call sim_phase(0); call res_str(buf); deallocate(buf)
+#endif
+#ifndef SIMC
     case ("ref_item")
        call sim_phase(1); h(a) = ref_item(); call sim_phase(0); call res_none()
 #endif
